@@ -394,6 +394,12 @@ where
             quotient_polys
                 .into_par_iter()
                 .flat_map(|mut quotient_poly| {
+                    #[cfg(feature = "verif_hooks")]
+                    if crate::verif_hooks::knobs::lenient_quotient() {
+                        quotient_poly
+                            .coeffs
+                            .truncate(degree * stark.quotient_degree_factor());
+                    }
                     quotient_poly
                         .trim_to_len(degree * stark.quotient_degree_factor())
                         .expect(
